@@ -23,7 +23,7 @@ PROP = 'C07'
 
 TIERS = {
     'quick': dict(runs=700, calls=(10, 40), wall=300, marathon=0.018),
-    'thorough': dict(runs=16000, calls=(10, 60), wall=2400, marathon=0.012),
+    'thorough': dict(runs=6000, calls=(10, 60), wall=2400, marathon=0.012),
 }
 
 PARSER_KINDS = ('specification', 'property', 'property', 'predicate', 'condition', 'expression')
@@ -471,6 +471,16 @@ def gen_scenario(seed, cfg):
         calls.append({'parser': pi, 'text': ti, 'fault': fault})
     module_calls = [sim.choose('mc', ntexts) for _ in range(sim.randint('nmc', 0, 2))]
     wmode = sim.weighted('warnings', [(7, 'default'), (3, 'error')])
+    # (drawn last, so that every earlier choice of every scenario stays as it was)
+    if sim.coin('odd_units', 0.3):
+        # a time bound in a unit a user might try (rates, microseconds, minutes), with the numbers that
+        # are special for a conversion: zero, fractions, exponents
+        t = 'globally: %s within %s %s' % (sim.pick('oddpat', ('no a', 'some /cmd_vel { linear_x > 0 }', 'a causes b', 'a as A requires b { x > @A.x }', 'a forbids b')),
+                                          sim.pick('oddnum', ('0', '0.0', '0e0', '10', '1e3', '.5', '1e400', '2.5e-320')),
+                                          sim.pick('oddunit', ('hz', 'hz', 'Hz', 'us', 'min', 'h', 'sec', 'msec', 'khz')))
+        texts.append({'family': 'property', 'text': t, 'tag': 'odd_unit'})
+        for _ in range(sim.randint('oddcalls', 1, 2)):
+            calls.append({'parser': sim.pick('oddparser', (1, 1, 0)), 'text': len(texts) - 1, 'fault': None})
     return {'seed': seed, 'texts': texts, 'calls': calls, 'module_calls': module_calls, 'warnings': wmode, 'digest_gen': sim.digest()}
 
 
